@@ -160,6 +160,12 @@ Theorem C12_deleverage_tx_window : forall w c a r signs steps w' c',
   exists eqs, window_fold (hw_now w) c eqs = Ok c'.
 Proof. exact deleverage_tx_window. Qed.
 
+(* lending_account_purge_delev_balance: risk admin only, only once the bank's tokenless repayments are complete *)
+Theorem C12_purge_guard : forall w a b signs w',
+  dv_purge w a b signs = Ok w' ->
+  signs = true /\ exists hb, nth_bank w b = Ok hb /\ get_flag (b_flags (hb_b hb)) TOKENLESS_REPAYMENTS_COMPLETE = true.
+Proof. exact purge_guard. Qed.
+
 (* ---------------------------------------------------------------- non-vacuity *)
 Example C12_nonvacuous_limits :
   exists w', pstep wit_caps RLimitAdmin (wit_world 16 0 None) (PLimitsOnly (Some 5) None (Some 7)) = Ok w' /\
@@ -200,3 +206,4 @@ Print Assumptions C12_daily_resets_spaced.
 Print Assumptions C12_daily_limit_wrap_refuted.
 Print Assumptions C12_daily_limit_saturation_refuted.
 Print Assumptions C12_deleverage_tx_window.
+Print Assumptions C12_purge_guard.
